@@ -23,7 +23,7 @@ namespace photon {
 enum { KW_NONE = 0, KW_MUTEX, KW_CV, KW_SEM, KW_SLEEP, KW_SPIN, KW_RELOCK };
 enum { KF_NONE = 0, KF_NOTIFIED, KF_TIMEDOUT, KF_INTR };
 static uint8_t K_kind[KN], K_flag[KN]; static int K_err[KN]; static bool K_finite[KN], K_lock_finite[KN];
-static void* K_obj[KN]; static mutex* K_mtx[KN]; static spinlock* K_spin[KN]; static uint64_t K_need[KN]; static unsigned K_seq[KN], K_seqno;
+static uint64_t K_deadline[KN]; static void* K_obj[KN]; static mutex* K_mtx[KN]; static spinlock* K_spin[KN]; static uint64_t K_need[KN]; static unsigned K_seq[KN], K_seqno;
 // KN <= 4: every loop over the model threads is unrolled by macro (no unwinding needed for the contract layer itself)
 #if KN == 1
 #define K_EACH(M) M(0)
@@ -87,12 +87,15 @@ NOINL uint32_t K_timeout_event(uint32_t i)
     if (K_kind[i] == KW_NONE || !K_finite[i]) return 0;
     if (K_kind[i] == KW_SPIN || K_kind[i] == KW_RELOCK) return 0;       // already woken (only waiting for its lock): its sleep is over, no deadline any more
     K_flag[i] = KF_TIMEDOUT;
+    if (photon::now < K_deadline[i]) photon::now = K_deadline[i];       // a deadline only expires once the clock has reached it
     if (K_kind[i] == KW_CV) {                          // must still re-acquire its lock
         if (K_mtx[i]) K_want_mutex(i, K_mtx[i]); else K_kind[i] = KW_SPIN;
         return 1;                                      // (the lock itself is taken when the thread is next picked: K_try_unblock)
     }
     K_kind[i] = KW_NONE; return 1;
 }
+// the runtime clock is monotone and may advance by any amount between two execution slices
+NOINL void K_tick() { photon::now = photon::now + nondet_u8(); }
 // ---- mutex
 // begin functions return non-zero iff the caller blocks (ir2c --blockingc): an uncontended operation is not a scheduling point
 NOINL uint32_t K_mutex_lock_begin(mutex* m, uint64_t expiration)
@@ -101,7 +104,7 @@ NOINL uint32_t K_mutex_lock_begin(mutex* m, uint64_t expiration)
     if (m->owner.load() == nullptr) { m->owner.store(K_tid(me)); return 0; }
     CHECK(m->owner.load() != K_tid(me), "K: a plain mutex is not locked twice by its owner");
     if (expiration == 0 || expiration <= photon::now) { K_flag[me] = KF_TIMEDOUT; return 0; }
-    K_kind[me] = KW_MUTEX; K_obj[me] = m; K_seq[me] = ++K_seqno; K_finite[me] = (expiration != (uint64_t)-1);
+    K_kind[me] = KW_MUTEX; K_obj[me] = m; K_seq[me] = ++K_seqno; K_finite[me] = (expiration != (uint64_t)-1); K_deadline[me] = expiration;
     return 1;
 }
 NOINL int K_mutex_lock_end()
@@ -126,7 +129,7 @@ NOINL uint32_t K_cv_wait_begin(condition_variable* c, mutex* m, uint64_t expirat
     int me = K_ME;
     CHECK(m->owner.load() == K_tid(me), "K: condition_variable::wait called with the mutex held");
     K_flag[me] = KF_NONE; K_kind[me] = KW_CV; K_obj[me] = c; K_mtx[me] = m; K_seq[me] = ++K_seqno;
-    K_finite[me] = (expiration != (uint64_t)-1);
+    K_finite[me] = (expiration != (uint64_t)-1); K_deadline[me] = expiration;
     if (expiration == 0 || expiration <= photon::now) K_finite[me] = true;
     K_hand_mutex(m);                                   // release-and-wait is one step
     return 1;
@@ -163,7 +166,7 @@ NOINL uint32_t K_cv_wait_spin_begin(condition_variable* c, spinlock* l, uint64_t
     int me = K_ME;
     CHECK(l->locked(), "K: condition_variable::wait called with the spinlock held");
     K_flag[me] = KF_NONE; K_kind[me] = KW_CV; K_obj[me] = c; K_mtx[me] = nullptr; K_spin[me] = l; K_seq[me] = ++K_seqno;
-    K_finite[me] = (expiration != (uint64_t)-1);
+    K_finite[me] = (expiration != (uint64_t)-1); K_deadline[me] = expiration;
     if (expiration == 0 || expiration <= photon::now) K_finite[me] = true;
     l->unlock();                                       // release-and-wait is one step
     return 1;
@@ -184,7 +187,7 @@ NOINL uint32_t K_sem_wait_begin(semaphore* s, uint64_t count, uint64_t expiratio
     uint64_t c = s->m_count.load();
     if (c >= count && K_earliest(KW_SEM, s) < 0) { s->m_count.store(c - count); return 0; }
     if (expiration == 0 || expiration <= photon::now) { K_flag[me] = KF_TIMEDOUT; return 0; }
-    K_kind[me] = KW_SEM; K_obj[me] = s; K_need[me] = count; K_seq[me] = ++K_seqno; K_finite[me] = (expiration != (uint64_t)-1);
+    K_kind[me] = KW_SEM; K_obj[me] = s; K_need[me] = count; K_seq[me] = ++K_seqno; K_finite[me] = (expiration != (uint64_t)-1); K_deadline[me] = expiration;
     return 1;
 }
 NOINL int K_sem_wait_end()
@@ -210,7 +213,7 @@ NOINL uint32_t K_usleep_begin(uint64_t expiration)
 {
     int me = K_ME; K_flag[me] = KF_NONE;
     if (expiration == 0 || expiration <= photon::now) return 1;      // behaves like a yield
-    K_kind[me] = KW_SLEEP; K_obj[me] = nullptr; K_finite[me] = (expiration != (uint64_t)-1);
+    K_kind[me] = KW_SLEEP; K_obj[me] = nullptr; K_finite[me] = (expiration != (uint64_t)-1); K_deadline[me] = expiration;
     return 1;
 }
 NOINL int K_usleep_end() { return 0; }
